@@ -348,14 +348,14 @@ def run_check(pid, tier, seed):
         mod = importlib.import_module(modname)
         tasks = mod.plan(tier, seed)
         total = execute(mod, tasks)
-        if total.errors:
+        if total.errors and not total.violations:
             raise Inconclusive("harness error: " + total.errors[0])
         if hasattr(mod, "second_round"):
             tasks2 = mod.second_round(total, tier, seed)
             if tasks2:
                 total.merge(execute(mod, tasks2), getattr(mod, "merge_extra", None))
                 tasks = tasks + tasks2
-                if total.errors:
+                if total.errors and not total.violations:
                     raise Inconclusive("harness error: " + total.errors[0])
         if hasattr(mod, "finalize"):
             try:
@@ -371,6 +371,8 @@ def run_check(pid, tier, seed):
         print("INCONCLUSIVE property=%s reason=%s" % (pid, str(e).replace("\n", " | ")[:1500]))
         return 2
 
+    for err in total.errors[:3]:
+        print("NOTE harness error alongside violations: %s" % err.replace("\n", " | ")[:300])
     known, _fixed = load_known()
     prop = property_record(pid)
     # classify violations
@@ -382,6 +384,9 @@ def run_check(pid, tier, seed):
             seen_known.setdefault(k, v)
         else:
             fresh.append(v)
+    if total.errors and not fresh:
+        print("INCONCLUSIVE property=%s reason=harness error: %s" % (pid, total.errors[0].replace("\n", " | ")[:1500]))
+        return 2
     for (p_, key), v in sorted(seen_known.items()):
         print("KNOWN-FINDING: property=%s %s" % (pid, known[(p_, key)] if known[(p_, key)] else key))
     replay_paths = []
